@@ -102,6 +102,11 @@ func (w *dialogWorld) sendFromUA(m *sip.Msg, id string, u int, svc int, proto st
 		w.DropConn(path)
 		return nil, path, false
 	}
+	if len(w.Net.ForCase(id)) == 0 {
+		// every request of these histories has a destination: not there yet means the
+		// driver's readers are behind (loaded machine) - wait under the watchdog
+		w.Net.WaitCase(id, func(o []*wire.Obs) bool { return len(o) >= 1 }, w.BarrierWait)
+	}
 	return w.Net.ForCase(id), path, true
 }
 
@@ -692,6 +697,10 @@ func scenarioPinTime() int {
 			}
 			if strings.HasPrefix(plan, "notify") {
 				d.kind = "subscribe"
+				// the answer to the backend's SUBSCRIBE carries Expires: 600 (establishSubscribe):
+				// that is the promised lifetime of these pins
+				d.expires = 600
+				d.life = 600 * time.Second
 			}
 			t0 := time.Duration(g.R.Intn(1200)) * time.Millisecond
 			evs = append(evs, ptEvent{at: t0, d: d, what: "establish", arg: plan})
